@@ -122,17 +122,27 @@ func c14bBuild(t testing.TB, r *vreport.Report, sc c14bScenario) vsched.Scenario
 							lastAdd = i
 						}
 					}
-					commitIdx := -1 // the document write that committed the current revision
-					for i, rec := range H.Snapshot() {
+					// the attempt that committed the current revision: from its read of the document (or, after a lost CAS
+					// race, from the failed write that made it start over) to its applied write
+					commitIdx, commitThread, attemptStart := -1, -2, -1
+					log := H.Snapshot()
+					for i, rec := range log {
 						if rec.Key == docID && rec.Op == "WriteUpdateWithXattrs.write" && rec.Applied {
-							commitIdx = i
+							commitIdx, commitThread = i, rec.Thread
 						}
 					}
-					if lastDel > lastAdd && lastAdd >= 0 && delThread >= 0 {
-						if lastDel > commitIdx {
+					for i := 0; i < commitIdx; i++ {
+						rec := log[i]
+						if rec.Key == docID && rec.Thread == commitThread && (rec.Op == "WriteUpdateWithXattrs.read" || (rec.Op == "WriteUpdateWithXattrs.write" && !rec.Applied)) {
+							attemptStart = i
+						}
+					}
+					if lastDel >= 0 && delThread >= 0 && delThread != commitThread {
+						if lastDel > attemptStart {
+							// the other writer's sweep ran on a decision that was stale by then
 							cause = "swept-as-obsolete-by-the-other-writer-after-being-listed-again"
 						} else {
-							cause = "removed-before-the-commit-and-not-stored-again-by-the-committing-attempt"
+							cause = "removed-before-the-committing-attempt-started-and-not-stored-again"
 						}
 					}
 					viol["C14/race/listed-attachment-unreadable/"+cause] = fmt.Sprintf("revision %s lists %s (%s) but its body cannot be read: %v [%s; errA=%v errB=%v]", leaf, attName, digest, gerr, name, errs[0], errs[1])
